@@ -468,6 +468,37 @@ def check_S6(prog, rep, eff):
     return n
 
 
+def check_dynamic_ufuncs(prog, rep):
+    """S3-dufunc: no function of the package is a lazily compiled numba ufunc.  `@vectorize` / `@guvectorize` without an explicit
+    list of signatures builds a DUFunc whose table of compiled loops grows with use; a call is served by the first loop already
+    compiled that its arguments can be cast to, so what `f(1, 2)` computes (and in which dtype) depends on the calls made
+    before - hidden module-level state.  With signatures the table is fixed at import (`@vectorize(['f8(f8, f8)'])`)."""
+    bad, n = [], 0
+    for f in prog.all_funcs():
+        if f.is_lambda or not hasattr(f.node, 'decorator_list'):
+            continue
+        for d in f.node.decorator_list:
+            call = d if isinstance(d, ast.Call) else None
+            fn = call.func if call is not None else d
+            nm = norm(fn).split('.')[-1]
+            if nm not in ('vectorize', 'guvectorize'):
+                continue
+            t = prog.resolve_callable(f.parent, f.module, fn)
+            dotted = getattr(t, 'dotted', '') or ''
+            if dotted.startswith('numpy'):
+                continue
+            n += 1
+            sig = call.args[0] if call is not None and call.args else None
+            if not (isinstance(sig, (ast.List, ast.Tuple)) and sig.elts):
+                bad.append((f, d))
+    for f, d in bad:
+        rep.add('S3-dufunc', f, f.qualname, '@' + norm(d)[:80], d.lineno, False,
+                'a numba ufunc without explicit signatures compiles its loops on demand and serves a call with the first loop compiled '
+                'so far that fits: the dtype and value of a result depend on the calls made before it')
+    if not bad:
+        rep.add('S3-dufunc', 'xrspatial', 'package', 'no lazily compiled numba ufunc (%d numba ufunc decorators)' % n, 1, True)
+
+
 def check(prog, rep):
     from ..sharedrules import check_value_truthiness
     for nm_, f_ in sorted(prog.public_api().items()):
@@ -475,6 +506,7 @@ def check(prog, rep):
             check_value_truthiness(prog, rep, 'S8-truth', f_)
     rep.floor('S8-truth', 30)
     eff = Effects(prog)
+    check_dynamic_ufuncs(prog, rep)
     nf = check_S1(prog, rep, eff)
     check_S2(prog, rep, eff)
     check_S3(prog, rep, eff)
